@@ -12,7 +12,7 @@
    wire_ok st         - header fields of queued PDUs / socket addresses are in range (encode() would raise
                         otherwise), no SYMM/AGF queued, DM/FRMR/SNL/PAX/DPS meet their decode checks. *)
 From Coq Require Import ZArith List Bool Lia.
-From NV Require Import Base.Result Base.Bytes Model.Collect Proofs.Collect Proofs.CollectRx Gen.CollectK Bridge.Collect.
+From NV Require Import Base.Result Base.Bytes Model.Collect Proofs.Collect Proofs.CollectRx Proofs.CollectMiux Gen.CollectK Bridge.Collect.
 Import ListNotations.
 Open Scope Z_scope.
 
@@ -47,6 +47,25 @@ Proof.
   rewrite Forall_forall in A. exact (A p Hp).
 Qed.
 Print Assumptions C10_ui_i_payload_bound.
+
+(* --- the limits are learnt correctly: the MIU taken over from general bytes / PAX / CONNECT / CC is 128 + the low 11
+       bits of the 16-bit MIUX value (reserved bits 11..15 never enlarge it), and a connection's send MIU is that
+       value clamped to the link MIU --- *)
+Theorem C10_miux_learned_bound : forall V, 0 <= V < 65536 ->
+  learn_miu (Some V) = 128 + V mod 2048 /\ 128 <= learn_miu (Some V) <= 2175.
+Proof. exact miux_learned. Qed.
+Print Assumptions C10_miux_learned_bound.
+Theorem C10_conn_miu_learned : forall M V s, 0 <= V < 65536 ->
+  smiu (learn_conn_miu M (Some V) s) = Z.min M (128 + V mod 2048) /\
+  peer (learn_conn_miu M (Some V) s) = peer s /\ addr (learn_conn_miu M (Some V) s) = addr s.
+Proof. exact conn_learned. Qed.
+Print Assumptions C10_conn_miu_learned.
+Theorem C10_bridge_miux : forall V,
+  miux_decode V = (if negb (gen_c10_miux_reserved V =? 0) then gen_c10_miux_masked V else V) /\
+  learn_miu (Some V) = gen_c10_connect_miu (miux_decode V) /\ learn_miu (Some V) = gen_c10_cc_miu (miux_decode V) /\
+  learn_miu (Some V) = gen_c10_pax_miu (miux_decode V).
+Proof. exact bridge_miux. Qed.
+Print Assumptions C10_bridge_miux.
 
 (* --- sendto()/send() refuse payloads above the link / connection send MIU (EMSGSIZE), so queued_ok is kept --- *)
 Theorem C10_send_emsgsize_sendto : forall M s msg dest,
